@@ -176,15 +176,33 @@ func (bc *boundsCtx) key(v ssa.Value) string {
 }
 
 // term: (name, offset) with value = name + offset; constants are ("", c).
+// constVal: an integer constant, or the length of a constant string / an array (len(label) after a
+// helper taking the label was inlined with a constant argument).
+func (bc *boundsCtx) constVal(v ssa.Value) (int64, bool) {
+	v = bc.resolve(v)
+	if k, ok := constInt(v); ok {
+		return k, true
+	}
+	if call, ok := v.(*ssa.Call); ok && calleeName(&call.Call) == "builtin.len" && len(call.Call.Args) == 1 {
+		if n, k := bc.lenTerm(bc.resolve(call.Call.Args[0])); n == "" {
+			return k, true
+		}
+	}
+	return 0, false
+}
+
 func (bc *boundsCtx) term(v ssa.Value, depth int) (string, int64) {
 	v = bc.resolve(v)
 	if c, ok := v.(*ssa.Const); ok && c.Value != nil && c.Value.Kind() == constant.Int {
 		i, _ := constant.Int64Val(c.Value)
 		return "", i
 	}
+	if k, ok := bc.constVal(v); ok {
+		return "", k
+	}
 	if depth < 6 {
 		if b, ok := v.(*ssa.BinOp); ok {
-			if k, isC := constInt(bc.resolve(b.Y)); isC {
+			if k, isC := bc.constVal(b.Y); isC {
 				n, off := bc.term(b.X, depth+1)
 				switch b.Op {
 				case token.ADD:
@@ -193,7 +211,7 @@ func (bc *boundsCtx) term(v ssa.Value, depth int) (string, int64) {
 					return n, off - k
 				}
 			}
-			if k, isC := constInt(bc.resolve(b.X)); isC && b.Op == token.ADD {
+			if k, isC := bc.constVal(b.X); isC && b.Op == token.ADD {
 				n, off := bc.term(b.Y, depth+1)
 				return n, off + k
 			}
